@@ -846,17 +846,37 @@ class Gen:
             # the loop is no longer an enumerate loop: nothing to normalise (its contract decides whether it still fits)
             return text
         body = masked[lp['open']:lp['close'] + 1]
-        if re.search(r'\bcontinue\b', body):
-            raise rsx.LostAnchor('%s: loop %d of %s contains `continue`: N9 does not apply' % (rel, k, qual))
         i_name, x_name = m.group(1), m.group(2)
+        # `continue` skips the counter: each `continue` of THIS loop (not of a loop nested in it, not labelled)
+        # becomes `{ i += 1; continue; }`
+        inner = [(l2['open'], l2['close']) for l2 in loops if lp['open'] < l2['open'] and l2['close'] < lp['close']]
+        conts = []
+        for mc in re.finditer(r'\bcontinue\b(\s*\'\w+)?\s*;', body):
+            a = lp['open'] + mc.start()
+            if mc.group(1):
+                raise rsx.LostAnchor('%s: loop %d of %s has a labelled `continue`: N9 does not apply' % (rel, k, qual))
+            if any(o < a < c for o, c in inner):
+                continue
+            conts.append((a, lp['open'] + mc.end()))
         e_start = lp['kw_off'] + m.start(3)
         e_end = lp['kw_off'] + m.end(3)
         expr = text[e_start:e_end]
-        new_head = '{ let mut %s: usize = 0; for %s in %s ' % (i_name, x_name, expr)
+        if conts:
+            # N10: Verus' `for` does not take `continue`; the loop is written as what `for` means:
+            # `let mut it = IntoIterator::into_iter(E); while let Some(x) = it.next() { .. }`
+            new_head = '{ let mut %s: usize = 0; let mut __it_%s = ::core::iter::IntoIterator::into_iter(%s); while let Some(%s) = __it_%s.next() ' % (
+                i_name, i_name, expr, x_name, i_name)
+            self.norm_counts['N10_for_as_while_let'] = self.norm_counts.get('N10_for_as_while_let', 0) + 1
+        else:
+            new_head = '{ let mut %s: usize = 0; for %s in %s ' % (i_name, x_name, expr)
         # keep the line structure: header may span lines; pad with the same number of newlines
         pad = text[lp['kw_off']:lp['open']].count('\n') - new_head.count('\n')
         new_head += '\n' * max(0, pad)
-        out = text[:lp['kw_off']] + new_head + text[lp['open']:lp['close']] + ' ; %s += 1; } }' % i_name + text[lp['close'] + 1:]
+        btxt = text[lp['open']:lp['close']]
+        for a, b in sorted(conts, reverse=True):
+            ra, rb = a - lp['open'], b - lp['open']
+            btxt = btxt[:ra] + '{ %s += 1; continue; }' % i_name + btxt[rb:]
+        out = text[:lp['kw_off']] + new_head + btxt + ' ; %s += 1; } }' % i_name + text[lp['close'] + 1:]
         self.norm_counts['N9_enumerate_counter'] = self.norm_counts.get('N9_enumerate_counter', 0) + 1
         return out
 
